@@ -9,7 +9,7 @@ import Model.Fmt.ReaderLimit
 /-
 C02 driver.
 
-case <id> kind=r fn=<hex> text=<hex> nums=<tbl> tidy=<tbl> uni=<tbl> tag=…
+case <id> kind=r fn=<hex> text=<hex> init=<hexlist k,v,k,v…> haspre=0|1 pre=<hex> nums=<tbl> tidy=<tbl> uni=<tbl> tag=…
 case <id> kind=f paths=<hexlist> stdin=0|1 labels=0|1 fsn=<hexlist> fsc=<hexlist> in=<hex> nums=… tidy=… uni=… tag=…
   nums : field:atoi:atof,…    atoi ∈ i<dec> | s | r | o<hex>     atof ∈ f<16 hex> | s | r | o<hex>
   tidy : bits:unit:tidybits:tidyunit,…
@@ -163,20 +163,35 @@ def errField (open_ ioErr : Option Bytes) : String :=
   | none, some b => if b.isEmpty then "00empty" else b.toHex
   | none, none => "-"
 
+def pairUp : List Bytes → List (Bytes × Bytes)
+  | k :: v :: rest => (k, v) :: pairUp rest
+  | _ => []
+
 def handleReader (l : Line) (O : Oracles) : IO Unit := do
   let fn := (l.bytes? "fn").getD []
   let text := (l.bytes? "text").getD []
+  let init := pairUp ((l.hexList? "init").getD [])
+  let hasPre := l.getD "haspre" "0" == "1"
+  let pre := (l.bytes? "pre").getD []
+  let preFn := Bytes.ofString "pre"
+  -- a reused reader has read `pre` to the end before it is Reset
+  let stBefore (P : Oracles) : RState :=
+    if hasPre then finalState P (RState.zero.reset preFn []) (splitLinesLim pre).1 else RState.zero
+  let st0 := (stBefore O).reset fn init
   let lim := splitLinesLim text
-  let (recs, r) := drain O { (Reader.new text fn) with lines := lim.1 } #[]
-  let ioErr := (readAllLim O fn text).2
+  let (recs, r) := drain O { st := st0, lines := lim.1, q := [], qPos := 0 } #[]
+  let ioErr := if lim.2 then some (tooLongMsg st0.fileName lim.1.length) else none
   for rec in recs do
     IO.println s!"obs {l.id} {showRec rec}"
   IO.println s!"obs {l.id} end n={recs.size} failed={errField none ioErr} units={showUnits r.st.units}"
   let CO := closedOracles O.uc
-  let cst := RState.zero.reset fn []
+  let cst := (stBefore CO).reset fn init
   IO.println (closedLine l.id recs.toList (readLines CO cst lim.1) r.st.units
     (finalState CO cst lim.1).units)
-  let (srecs, sunits, serr) := Spec.Format.readLimited O fn [] [] text
+  -- specification: labels as a map, unit metadata known from the earlier text
+  let labels : Spec.Format.CMap := init.foldl (fun m kv => Spec.Format.CMap.assign m kv.1 kv.2 false) []
+  let unitsBefore := if hasPre then (Spec.Format.read O preFn [] [] pre).2 else []
+  let (srecs, sunits, serr) := Spec.Format.readLimited O fn labels unitsBefore text
   for rec in srecs do
     IO.println s!"spec {l.id} {showSRec rec}"
   IO.println s!"spec {l.id} end n={srecs.length} failed={errField none serr} units={showUnits sunits} clone=ok"
